@@ -166,6 +166,9 @@ def parse_wire(data: bytes):
 
 def header_get(headers, name: bytes) -> Optional[bytes]:
     for k, v in headers:
+        if k == name:           # exact spelling first: a message may carry case twins (tuple-level exchanges)
+            return v
+    for k, v in headers:
         if k.lower() == name.lower():
             return v
     return None
